@@ -5,7 +5,10 @@ nothing is evaluated:
   unroll_static_loops   `for T in <literal tuple/list>` (or a local, a module-level or a class-level name bound to one; `.items()` /
                         `.keys()` / `.values()` of a literal dict alike) -> the body once per element, the
                         loop targets replaced by the element's expressions;  a table scan `for T in <literal>: if C: S; break`
-                        [`else: E`] -> the if/elif chain over the rows [with `else: E`]
+                        [`else: E`] -> the if/elif chain over the rows [with `else: E`];  comprehensions and all/any/tuple/list/join
+                        of a generator over such a sequence written out (`all(E(x) for x in (a, b))` -> `E(a) and E(b)`)
+  inline_class_constants  reads `<x>.NAME` of a class-level constant of the package (bound once to an immutable literal, never
+                        overridden, stored or mutated anywhere) -> the literal  (applied per module, before everything else)
   specialise_dispatch   `if c1: def f.. elif c2: def f.. else: raise` followed by statements using f -> the statements moved into each
                         arm with that arm's f (closure dispatch is the if/elif chain it abbreviates)
   inline_local_defs     a nested `def h(p): return e` / `h = lambda p: e` (or a nested def with straight-line statements and one
@@ -328,6 +331,119 @@ def _scan_chain(loop: ast.For, seq):
     return chain
 
 
+class _StaticComps(ast.NodeTransformer):
+    """Comprehensions / generator arguments over a STATIC sequence (a literal tuple / list, or a name known to be bound to one)
+    written out, like unroll_static_loops does for statements:
+
+        all(E(x) for x in (a, b))    ->  E(a) and E(b)                any(..) -> .. or ..
+        tuple(E(x) for x in (a, b))  ->  (E(a), E(b))                 list(..) / [E(x) for x in (a, b)] -> [E(a), E(b)]
+        sep.join(E(x) for x in (a, b)) -> sep.join([E(a), E(b)])
+
+    (Dict / set comprehensions stay as they are: keying by the elements may merge equal ones, which rules about multiplicity read
+    off the comprehension.)  One generator, no filter, plain-name targets, pure element expressions in the sequence.  (all/any yield the same truth value
+    and evaluate the same operands in the same order, stopping at the same one.)"""
+
+    def __init__(self, lits):
+        self.lits = lits
+
+    def _rows(self, comp):
+        """[{target name: element expr}] or None"""
+        if len(comp.generators) != 1:
+            return None
+        g = comp.generators[0]
+        if g.ifs or g.is_async:
+            return None
+        seq = _literal_seq(g.iter) or (self.lits.get(g.iter.id) if isinstance(g.iter, ast.Name) else None)
+        if seq is None:
+            return None
+        tg = g.target
+        if isinstance(tg, ast.Name):
+            names = None
+        elif isinstance(tg, (ast.Tuple, ast.List)) and all(isinstance(e, ast.Name) for e in tg.elts):
+            names = [e.id for e in tg.elts]
+        else:
+            return None
+        rows = []
+        for e in seq.elts:
+            if names is None:
+                m = {tg.id: e}
+            else:
+                if not isinstance(e, (ast.Tuple, ast.List)) or len(e.elts) != len(names) or any(isinstance(x, ast.Starred) for x in e.elts):
+                    return None
+                m = dict(zip(names, e.elts))
+            if not all(_pure(v, lambdas=True) for v in m.values()):
+                return None
+            rows.append(m)
+        return rows
+
+    def _elts(self, comp, *parts):
+        rows = self._rows(comp)
+        if rows is None:
+            return None
+        # a name bound inside the element expression (walrus / nested comprehension target) that is also a loop target: refuse
+        tnames = set(rows[0]) if rows else set()
+        for p_ in parts:
+            if any(isinstance(n, ast.NamedExpr) or (isinstance(n, ast.Name) and isinstance(n.ctx, ast.Store) and n.id in tnames) for n in ast.walk(p_)):
+                return None
+        return [[_Subst(dict(m)).visit(copy.deepcopy(p_)) for p_ in parts] for m in rows]
+
+    def visit_ListComp(self, n):
+        self.generic_visit(n)
+        el = self._elts(n, n.elt)
+        if el is None:
+            return n
+        return ast.copy_location(ast.List(elts=[e[0] for e in el], ctx=ast.Load()), n)
+
+    def visit_Call(self, n):
+        self.generic_visit(n)
+        if n.keywords or len(n.args) != 1:
+            return n
+        a = n.args[0]
+        f = n.func
+        if isinstance(a, ast.GeneratorExp):
+            el = self._elts(a, a.elt)
+            elts = None if el is None else [e[0] for e in el]
+        elif isinstance(a, ast.List) and not any(isinstance(e, ast.Starred) for e in a.elts):
+            elts = list(a.elts)          # a list comprehension already written out
+        else:
+            return n
+        if elts is None or not elts:
+            return n
+        if isinstance(f, ast.Name) and f.id in ("all", "any"):
+            if len(elts) == 1:
+                return n
+            return ast.copy_location(ast.BoolOp(op=ast.And() if f.id == "all" else ast.Or(), values=elts), n)
+        if isinstance(f, ast.Name) and f.id == "tuple":
+            return ast.copy_location(ast.Tuple(elts=elts, ctx=ast.Load()), n)
+        if isinstance(f, ast.Name) and f.id == "list":
+            return ast.copy_location(ast.List(elts=elts, ctx=ast.Load()), n)
+        if isinstance(f, ast.Attribute) and f.attr == "join" and isinstance(a, ast.GeneratorExp):
+            n.args = [ast.copy_location(ast.List(elts=elts, ctx=ast.Load()), a)]
+        return n
+
+    def visit_FunctionDef(self, n):
+        return n            # nested functions are normalised on their own
+
+    visit_AsyncFunctionDef = visit_ClassDef = visit_FunctionDef
+
+
+def _static_comps(st, lits):
+    """the expressions evaluated by statement `st` itself (not those of the statements nested in it), comprehensions over static
+    sequences written out"""
+    tr = _StaticComps(lits)
+    if isinstance(st, (ast.FunctionDef, ast.AsyncFunctionDef, ast.ClassDef)):
+        return st
+    nested = {"body", "orelse", "finalbody", "handlers"}
+    for fld, val in ast.iter_fields(st):
+        if fld in nested:
+            continue
+        if isinstance(val, ast.AST):
+            setattr(st, fld, tr.visit(val))
+        elif isinstance(val, list):
+            setattr(st, fld, [tr.visit(v) if isinstance(v, ast.AST) else v for v in val])
+    return st
+
+
 def _attr_table(node, attrs):
     """the class-level table read by `self.T` / `cls.T` / `<Class>.T` (attrs: {(receiver name, T): literal sequence}), or None"""
     if attrs and isinstance(node, ast.Attribute) and isinstance(node.value, ast.Name):
@@ -343,6 +459,7 @@ def _unroll_block(stmts, lits, once=frozenset(), attrs=None, static: bool = Fals
     out = []
     lits = dict(lits)
     for st in stmts:
+        st = _static_comps(st, lits)
         if isinstance(st, ast.For):
             seq, local = _iterated(st.iter, lits, attrs) or (None, None)
             if seq is None and static:
@@ -1429,6 +1546,190 @@ def const_setattr(func):
         return out
     func.body = block(func.body)
     return func
+
+
+# ------------------------------------------------------------------------------------------------ class-level constants
+
+_ENUM_BASES = ("Enum", "IntEnum", "Flag", "IntFlag", "StrEnum", "NamedTuple", "TypedDict", "Protocol")
+
+
+def _const_value(node):
+    """an immutable literal: a constant or a (nested) tuple of such.  (List / set / dict displays are objects that can be aliased and
+    edited, and rules name the package's long-standing tables by their attribute: they stay attribute reads.)"""
+    if isinstance(node, ast.Constant) and not isinstance(node.value, (bytes, type(Ellipsis))):
+        return True
+    if isinstance(node, ast.UnaryOp) and isinstance(node.op, ast.USub) and isinstance(node.operand, ast.Constant) and isinstance(node.operand.value, (int, float)):
+        return True
+    if isinstance(node, ast.Tuple):
+        return 1 <= len(node.elts) <= 24 and all(_const_value(e) for e in node.elts)
+    if isinstance(node, ast.Call) and ast.unparse(node.func) in _CONST_CTORS and not node.keywords and node.args and all(isinstance(a, ast.Constant) for a in node.args):
+        return True          # a pattern compiled from constants: an immutable value, the same wherever the expression is written
+    return False
+
+
+def class_constants(modules) -> dict:
+    """{attribute name: literal node} for the class-level CONSTANTS of a package (`modules`: iterable of parsed modules, raw or
+    normalised).  A constant is a name bound exactly once in the whole package as a class attribute -- to an immutable literal
+    (constant, tuple of constants) -- and that is nowhere else
+    bound at class or module level (no override in a subclass, no method / module global of that name), never stored through an
+    attribute (`x.NAME = ..`, `x.NAME += ..`, `del x.NAME`, `x.NAME[i] = ..`, `x.NAME.append(..)`), never the literal name of a
+    setattr / delattr, in a package without `setattr` on computed names in the defining module.  Under these conditions every read
+    `<anything>.NAME` that succeeds yields the literal.  Enum / NamedTuple / dataclass bodies are not constants tables."""
+    bound, touched, cand = {}, set(), {}
+    for mod in modules:
+        strings = None
+        for n in ast.walk(mod):
+            if isinstance(n, (ast.ClassDef, ast.Module)):
+                is_cls = isinstance(n, ast.ClassDef)
+                special = is_cls and (any(ast.unparse(b).split(".")[-1] in _ENUM_BASES for b in n.bases) or any("dataclass" in ast.unparse(d) for d in n.decorator_list))
+                for st in n.body:
+                    names = []
+                    if isinstance(st, ast.Assign):
+                        names = [x.id for t in st.targets for x in ast.walk(t) if isinstance(x, ast.Name)]
+                    elif isinstance(st, (ast.AnnAssign, ast.AugAssign)):
+                        names = [x.id for x in ast.walk(st.target) if isinstance(x, ast.Name)]
+                    elif isinstance(st, (ast.FunctionDef, ast.AsyncFunctionDef, ast.ClassDef)):
+                        names = [st.name]
+                    elif isinstance(st, (ast.Import, ast.ImportFrom)):
+                        names = [(a.asname or a.name).split(".")[0] for a in st.names]
+                    elif not isinstance(st, (ast.Expr, ast.Pass)):
+                        # a conditional / loop / try at class or module level: whatever it binds is not a constant
+                        names = [x.id for x in ast.walk(st) if isinstance(x, ast.Name) and isinstance(x.ctx, ast.Store)] + \
+                                [x.name for x in ast.walk(st) if isinstance(x, (ast.FunctionDef, ast.ClassDef))]
+                        touched.update(names)
+                    for nm in names:
+                        bound[nm] = bound.get(nm, 0) + 1
+                    if is_cls and not special and isinstance(st, (ast.Assign, ast.AnnAssign)) and st.value is not None and len(names) == 1:
+                        tg = st.targets[0] if isinstance(st, ast.Assign) and len(st.targets) == 1 else st.target if isinstance(st, ast.AnnAssign) else None
+                        v = st.value
+                        if isinstance(v, ast.Call) and isinstance(v.func, ast.Name) and v.func.id == "tuple" and len(v.args) == 1 and not v.keywords \
+                                and isinstance(v.args[0], (ast.Tuple, ast.List)):
+                            v = ast.copy_location(ast.Tuple(elts=v.args[0].elts, ctx=ast.Load()), v)
+                        if isinstance(tg, ast.Name) and _const_value(v):
+                            cand[names[0]] = v
+                    elif is_cls and special:
+                        touched.update(names)
+            elif isinstance(n, ast.Attribute) and isinstance(n.ctx, (ast.Store, ast.Del)):
+                touched.add(n.attr)
+            elif isinstance(n, ast.Subscript) and isinstance(n.ctx, (ast.Store, ast.Del)) and isinstance(n.value, ast.Attribute):
+                touched.add(n.value.attr)
+            elif isinstance(n, ast.Call) and isinstance(n.func, ast.Attribute) and isinstance(n.func.value, ast.Attribute) and n.func.attr in MUTATORS:
+                touched.add(n.func.value.attr)
+            elif isinstance(n, ast.Call) and isinstance(n.func, ast.Name) and n.func.id in ("setattr", "delattr") and len(n.args) >= 2:
+                if isinstance(n.args[1], ast.Constant):
+                    touched.add(n.args[1].value)
+                else:
+                    # a computed attribute name: any identifier spelled as a string in this module may be meant
+                    if strings is None:
+                        strings = {c.value for c in ast.walk(mod) if isinstance(c, ast.Constant) and isinstance(c.value, str) and c.value.isidentifier()}
+                    touched |= strings
+            elif isinstance(n, ast.Global):
+                touched.update(n.names)
+    return {k: v for k, v in cand.items() if bound.get(k, 0) == 1 and k not in touched}
+
+
+class _ClassConsts(ast.NodeTransformer):
+    """reads `<name>.NAME` of a class-level constant -> the literal"""
+
+    def __init__(self, consts):
+        self.consts = consts
+
+    def visit_Attribute(self, n):
+        if isinstance(n.ctx, ast.Load) and isinstance(n.value, ast.Name) and n.attr in self.consts:
+            return ast.copy_location(copy.deepcopy(self.consts[n.attr]), n)
+        return self.generic_visit(n)
+
+
+def module_constants(mod: ast.Module) -> dict:
+    """{name: literal} for names bound exactly once at module level (and by nothing else at module level: def, class, import,
+    loop) to an immutable literal (_const_value), never declared `global` in a function"""
+    count, cand = {}, {}
+    for st in mod.body:
+        if isinstance(st, (ast.FunctionDef, ast.AsyncFunctionDef, ast.ClassDef)):
+            count[st.name] = count.get(st.name, 0) + 1
+            continue
+        for n in ast.walk(st):
+            if isinstance(n, ast.Name) and isinstance(n.ctx, (ast.Store, ast.Del)):
+                count[n.id] = count.get(n.id, 0) + 1
+            elif isinstance(n, ast.alias):
+                nm = (n.asname or n.name).split(".")[0]
+                count[nm] = count.get(nm, 0) + 1
+        tg = st.targets[0] if isinstance(st, ast.Assign) and len(st.targets) == 1 else st.target if isinstance(st, ast.AnnAssign) and st.value is not None else None
+        if isinstance(tg, ast.Name) and _const_value(st.value):
+            cand[tg.id] = st.value
+    if not cand:
+        return {}
+    glob = {nm for n in ast.walk(mod) if isinstance(n, (ast.Global, ast.Nonlocal)) for nm in n.names}
+    return {k: v for k, v in cand.items() if count.get(k, 0) == 1 and k not in glob}
+
+
+class _ModuleConsts(ast.NodeTransformer):
+    """reads of a module-level constant inside the functions of the module -> the literal, unless the name is bound in the function
+    (or in a function enclosing it): parameter, assignment, loop / comprehension / with / except target, nested def, import"""
+
+    def __init__(self, consts):
+        self.consts = consts
+        self.scopes = []
+
+    @staticmethod
+    def _locals(fn):
+        a = fn.args
+        out = {p.arg for p in a.posonlyargs + a.args + a.kwonlyargs} | ({a.vararg.arg} if a.vararg else set()) | ({a.kwarg.arg} if a.kwarg else set())
+        body = fn.body if isinstance(fn.body, list) else [fn.body]
+        for st in body:
+            for n in ast.walk(st):
+                if isinstance(n, ast.Name) and isinstance(n.ctx, (ast.Store, ast.Del)):
+                    out.add(n.id)
+                elif isinstance(n, (ast.FunctionDef, ast.AsyncFunctionDef, ast.ClassDef)):
+                    out.add(n.name)
+                elif isinstance(n, ast.alias):
+                    out.add((n.asname or n.name).split(".")[0])
+                elif isinstance(n, ast.ExceptHandler) and n.name:
+                    out.add(n.name)
+        return out
+
+    def _scoped(self, n):
+        self.scopes.append(self._locals(n))
+        try:
+            return self.generic_visit(n)
+        finally:
+            self.scopes.pop()
+
+    visit_FunctionDef = visit_AsyncFunctionDef = visit_Lambda = _scoped
+
+    def visit_Name(self, n):
+        if self.scopes and isinstance(n.ctx, ast.Load) and n.id in self.consts and not any(n.id in sc for sc in self.scopes):
+            return ast.copy_location(copy.deepcopy(self.consts[n.id]), n)
+        return n
+
+
+class _PatternCalls(ast.NodeTransformer):
+    """`re.compile(P).m(args)` is `re.m(P, args)` for the scanning methods, called with the arguments the module-level function
+    takes too (no pos / endpos): one spelling of a regular-expression scan, whether or not the pattern was compiled first"""
+    NARGS = {"sub": (2, 3), "subn": (2, 3), "split": (1, 2), "findall": (1, 1), "finditer": (1, 1), "search": (1, 1), "match": (1, 1), "fullmatch": (1, 1)}
+
+    def visit_Call(self, n):
+        self.generic_visit(n)
+        f = n.func
+        if isinstance(f, ast.Attribute) and f.attr in self.NARGS and isinstance(f.value, ast.Call) and ast.unparse(f.value.func) == "re.compile" \
+                and len(f.value.args) == 1 and not f.value.keywords and not n.keywords and not any(isinstance(a, ast.Starred) for a in n.args + f.value.args):
+            lo, hi = self.NARGS[f.attr]
+            if lo <= len(n.args) <= hi:
+                return ast.copy_location(ast.Call(func=ast.copy_location(ast.Attribute(value=f.value.func.value, attr=f.attr, ctx=ast.Load()), f),
+                                                  args=[f.value.args[0]] + list(n.args), keywords=[]), n)
+        return n
+
+
+def inline_class_constants(mod, consts: dict):
+    """every read of a class-level constant of the package (class_constants) and, inside functions, of a module-level constant
+    (module_constants) replaced by its literal; scans through a pattern compiled on the spot in their module-function spelling"""
+    if consts:
+        mod = _ClassConsts(consts).visit(mod)
+    mc = module_constants(mod)
+    if mc:
+        mod = _ModuleConsts(mc).visit(mod)
+    mod = _PatternCalls().visit(mod)
+    return ast.fix_missing_locations(mod)
 
 
 # ----------------------------------------------------------------------------------------------------- closure dispatch
